@@ -223,6 +223,39 @@ def world_window_log(world, cmd_of):
     return out
 
 
+def h_two_buffers(ctx, sizes):
+    """Two reads over ONE connection with different buffer sizes (the
+    machine's advertised size is an argument of every call): each callback
+    gets the machine's complete reply -- a datagram socket truncates what
+    does not fit the length asked of recv()."""
+    from models.net import World
+    from models.machine import Machine, ControllerPatch, _mix
+    from rig.machine_control.scp_connection import SCPConnection
+    first, second = ctx.pick(list(sizes))
+    machine = Machine(ctx, buffer_size=max(first, second))
+    world = World(ctx, machine=machine, prompt=True)
+    with ControllerPatch(world):
+        conn = SCPConnection("host")
+        addr = ctx.bv("addr", 32)
+        ctx.assume(addr + first + second <= (1 << 32))
+        try:
+            d1 = conn.read(first, 1, 3, 2, 0, addr, first)
+            d2 = conn.read(second, 1, 3, 2, 0, addr + first, second)
+        except Exception as e:
+            ctx.observe(type(e).__name__)
+            ctx.prove(False, "burst-unexpected-exception", repr(e))
+            return
+        ctx.observe(len(d1), len(d2))
+        ctx.witness("ok")
+        ctx.prove(len(d1) == first and len(d2) == second,
+                  "burst-callback-wrong-reply", (len(d1), len(d2)))
+        for data, base, n in ((d1, addr, first), (d2, addr + first, second)):
+            for i in (0, n // 2, n - 1):
+                if i < len(data):
+                    ctx.prove(data[i] == _mix(base + i),
+                              "burst-callback-wrong-reply", (i,))
+
+
 def units(tier, seed):
     us = []
     LOSS = ("lose_req", "lose_rep")
@@ -259,6 +292,10 @@ def units(tier, seed):
     # the sequence counter wraps inside the burst (2-bit sequence space
     # through rig's own seqs(mask)): numbers still outstanding are skipped
     add(6, 3, 2, 0, (), split=6, wit=("ok",), seq_mask=3, untimed=True)
+    us.append(Unit("two reads, one connection, two buffer sizes",
+                   h_two_buffers, dict(sizes=((64, 128), (120, 128),
+                                              (128, 64), (24, 32))),
+                   witnesses=("ok",), path_timeout_s=120))
     if tier == "thorough":
         add(8, 3, 2, 0, (), split=8, wit=("ok",), seq_mask=3, untimed=True)
         add(7, 4, 2, 0, (), split=8, wit=("ok",), seq_mask=7, untimed=True)
